@@ -17,6 +17,7 @@ import LW.Driver.C13
 import LW.Driver.C12
 import LW.Driver.C14
 import LW.Driver.C06
+import LW.Driver.C11
 
 open Lean LW.Driver
 
@@ -35,7 +36,8 @@ def handlers : List (String × (Json → R Json)) :=
    ("gate", handleC13),
    ("qconv", handleC12),
    ("reck", LW.Driver.C14.handleC14),
-   ("c06", handleC06)]
+   ("c06", handleC06),
+   ("cache", LW.Driver.C11.handleC11)]
 
 def dispatch (req : Json) : R Json := do
   let op ← asStr (← fld req "op")
